@@ -1,5 +1,5 @@
 CONSTANTS Mags = {1} Pages <- PagesSub1 Rows = {2} Cids = {1, 2} Nats = {0, 1} Flofs = {} Progs <- NoProgs
-          HdrFaults <- HdrAll RowFaults <- RowAll PktFaults = {} TripFaults = {} MaxFaults = 1 MaxPk = 6 FaultFrom = {0}
+          HdrFaults <- HdrAll RowFaults <- RowAll PktFaults = {} TripFaults = {} FlofFaults <- NoFlofFaults MaxFaults = 1 MaxPk = 6 FaultFrom = {0}
 SPECIFICATION GSpec
 VIEW gview
 INVARIANT DumpF
